@@ -1,5 +1,8 @@
 #!/bin/sh
-# regenerate _CoqProject and Makefile from the files on disk
+# regenerate _CoqProject and Makefile from the files on disk (serialised by a lock)
 cd "$(dirname "$0")"
+mkdir -p ../.work
+exec 9> ../.work/genproject.lock
+flock 9
 { echo "-Q . DL"; echo "-arg -w -arg -all"; find Lib Lua Model Proof Properties Generated -name '*.v' 2>/dev/null | grep -v '/cases_' | sort; } > _CoqProject.new
 if ! cmp -s _CoqProject.new _CoqProject 2>/dev/null; then mv _CoqProject.new _CoqProject; coq_makefile -f _CoqProject -o Makefile >/dev/null; else rm _CoqProject.new; [ -f Makefile ] || coq_makefile -f _CoqProject -o Makefile >/dev/null; fi
